@@ -446,6 +446,7 @@ class Heap:
         self.lists = {}
         self.objs = {}
         self.rags = {}
+        self.origin_src = {}  # list ref -> ref of the list it is a selection of
         self.origins = {}     # list ref -> z3 array: position -> index in the list it was selected from (filter comprehensions, their concatenations)
         self.next_ref = [1]
 
@@ -454,6 +455,7 @@ class Heap:
         h.lists = dict(self.lists)
         h.rags = dict(getattr(self, 'rags', {}))
         h.origins = dict(getattr(self, 'origins', {}))
+        h.origin_src = dict(getattr(self, 'origin_src', {}))
         h.objs = {k: dict(v) for k, v in self.objs.items()}
         h.next_ref = self.next_ref  # shared counter: refs stay globally unique
         return h
